@@ -76,7 +76,7 @@ def verify(C, H, proof, extra):
     if not borromean.verify(e0, s, pubs, rsizes, m): return None
     return minv, maxv
 
-def make_proof(value, blind, H, exp, mantissa, minv, extra, rng, reserved=0, small=True, exp_field=None, mant_field=None, spare_bits=0, no_range=False):
+def make_proof(value, blind, H, exp, mantissa, minv, extra, rng, reserved=0, small=True, exp_field=None, mant_field=None, spare_bits=0, no_range=False, forged_override=None, bl_override=None):
     """adversarial prover. The statement is value = minv + v*10^exp with v < 2^mantissa (all arithmetic over the integers, so
     wrapping headers can be produced). returns dict(C, proof, scalars offset, forged (flat list with None at the real ones), ...) or None"""
     if no_range:
@@ -90,7 +90,11 @@ def make_proof(value, blind, H, exp, mantissa, minv, extra, rng, reserved=0, sma
     C = add(mulG(blind), mul(value, H) if value else None)
     if C is None: return None
     digs = [(v >> (2 * i)) & 3 for i in range(rings)] if not no_range else [0]
-    bl = [rng.randrange(1, n) for i in range(rings - 1)]; bl.append((blind - sum(bl)) % n)
+    bl = [rng.randrange(1, n) for i in range(rings - 1)]
+    if bl_override:
+        for i_, v_ in bl_override.items():
+            if i_ < rings - 1: bl[i_] = v_(digs[i_], scale * 4 ** i_) % n      # v_(digit, weight) -> blinding factor of ring i_
+    bl.append((blind - sum(bl)) % n)
     firsts = []; signs = []; xs = []
     for i in range(rings - 1):
         Ci = add(mulG(bl[i]), mul(digs[i] * scale * 4 ** i, H) if digs[i] else None)
@@ -112,8 +116,11 @@ def make_proof(value, blind, H, exp, mantissa, minv, extra, rng, reserved=0, sma
         for j in range(1, rsizes[i]): ring.append(add(ring[-1], base))
         pubs.append(ring)
         if i < rings - 1: base = mul(4, base)
-    if any(P is None for ring in pubs for P in ring): return None
+    if any(P is None for ring in pubs for P in ring) and not bl_override: return None
     forged = [[(rng.randrange(1, 2**100) if small else rng.randrange(1, n)) for j in range(rsizes[i])] for i in range(rings)]
+    if forged_override:
+        for (i_, j_), v_ in forged_override.items():
+            if i_ < rings and j_ < rsizes[i_] and j_ != digs[i_]: forged[i_][j_] = v_
     res = borromean.sign(pubs, digs, bl, [rng.randrange(1, n) for i in range(rings)], forged, m)
     if res is None: return None
     e0, s = res
